@@ -886,23 +886,20 @@ def check_signature(ctx, db):
                           '%s(%s) writes to the OASIS file behind the back of oasis_write/oasis_putc: the bytes are not part of the CRC32/CHECKSUM32 signature' % (c.callee, stream))
     ctx.check(sig_writes == 2, 'R-EFFECT', 'write_oas/signature-bytes', db.fn(WRITER_ROOT).loc(), 'exactly the two signature words bypass the accumulator', '%d raw signature writes' % sig_writes)
     ctx.require('R-EFFECT stdio writes examined', n, 4)
-    # accumulator shape: buffer branch returns before the signature update; the update precedes the file write
-    for qn, wr in (('gdstk::oasis_write', 'fwrite'), ('gdstk::oasis_putc', 'putc')):
-        f = db.fn(qn)
-        body = [s for s in f.body.c if s is not None]
-        ok = len(body) == 3 and body[0].k == 'IfStmt' and norm(body[0].child('cond').text()) == 'out.cursor' and tables._always_leaves(body[0].child('then'))
-        ok = ok and body[1].k == 'IfStmt' and norm(body[1].child('cond').text()) == 'out.crc32' and body[1].child('else') is not None and norm(body[1].child('else').child('cond').text()) == 'out.checksum32'
-        if ok:
-            th = [x for x in body[1].child('then').walk() if is_assign(x) and norm(x.child('lhs').text()) == 'out.signature']
-            el = [x for x in body[1].child('else').child('then').walk() if is_assign(x) and norm(x.child('lhs').text()) == 'out.signature']
-            ok = len(th) >= 1 and all(norm(x.child('rhs').text()).startswith('crc32(out.signature, ') for x in th) and len(el) == 1 and norm(el[0].child('rhs').text()).startswith('checksum32(out.signature, ')
-            ok = ok and body[2].k == 'ReturnStmt' and any(c.k == 'CallExpr' and c.callee == wr for c in body[2].walk())
-        ctx.check(ok, 'R-SHAPE', '%s/accumulator' % qn.replace('gdstk::', ''), f.loc(), 'buffered bytes return early; otherwise the signature is updated (crc32 | checksum32, chained on the previous value) and then the bytes go to the file')
-    # oasis_write: the crc loop feeds every byte (chunks of UINT_MAX then the remainder)
-    f = db.fn('gdstk::oasis_write')
-    t = re.sub(r'\s+', ' ', norm(clone.canon(f.body, f)))
-    ok = re.search(r'while \(\(v(\d+) > (\(\(2147483647 \* 2\) \+ 1\)|4294967295)\)\) \(p(\d+)\.signature = crc32\(p\3\.signature, v(\d+), \2\)\) \(v\1 -= \2\) \(v\4 \+= \2\) if \(\(v\1 > 0\)\) \(p\3\.signature = crc32\(p\3\.signature, v\4, \(unsigned int\)v\1\)\)', t) is not None
-    ctx.check(ok, 'R-LOOP', 'oasis_write/crc-chunks', f.loc(), 'the CRC is fed in chunks: each chunk advances the pointer and reduces the remainder by the same amount')
+    # the accumulator itself, by interpretation (sa/oasacc.py): in every state of the stream - CBLOCK buffer armed (room left, exact
+    # fit, overflow), CRC32, CHECKSUM32, no validation - oasis_write and oasis_putc put exactly the bytes they are given into the
+    # buffer resp. the file, feed exactly those bytes once and in order to the signature (CRC in chunks an unsigned int holds;
+    # CHECKSUM32 = running sum modulo 2^32, interpreted itself), and leave file and signature alone while buffering
+    from .. import oasacc
+    problems, runs = oasacc.accumulator_model(db)
+    for qn in ('gdstk::oasis_write', 'gdstk::oasis_putc', 'gdstk::checksum32'):
+        ctx.touch(db.fn(qn))
+    ctx.explored['valuations'] += runs
+    for qn in ('gdstk::oasis_write', 'gdstk::oasis_putc'):
+        mine = [p_ for p_ in problems if p_.startswith(qn.replace('gdstk::', '')) or p_.startswith(qn)]
+        ctx.check(not mine, 'R-MODEL.accumulator', qn.replace('gdstk::', '') + '/bytes-file-signature', db.fn(qn).loc(),
+                  'in every stream state the bytes go to the buffer or to the file and - exactly once, in order - into the selected signature', '; '.join(mine[:2]))
+    ctx.require('R-MODEL.accumulator runs', runs, 38)
 
 
 def check_cblock(ctx, db):
@@ -1087,10 +1084,6 @@ def check_validator(ctx, db):
     ctx.check(inits == {'out.crc32': 'crc32(0, NULL, 0)', 'out.checksum32': '0'}, 'R-TABLE', 'write_oas/signature-seeds', w.loc(), 'the writer seeds the accumulator exactly like the validator', 'writer seeds: %s' % inits)
     flags = {norm(x.child('lhs').text()): norm(x.child('rhs').text()) for x in w.walk() if is_assign(x) and norm(x.child('lhs').text()) in ('out.crc32', 'out.checksum32')}
     ctx.check(flags == {'out.crc32': '(state.config_flags & 64)', 'out.checksum32': '(state.config_flags & 128)'}, 'R-TABLE', 'write_oas/signature-flags', w.loc(), 'INCLUDE_CRC32 (0x40) and INCLUDE_CHECKSUM32 (0x80) select the scheme', 'flags: %s' % flags)
-    cs = db.fn('gdstk::checksum32')
-    t = re.sub(r'\s+', ' ', norm(clone.canon(cs.body, cs)))
-    ok = re.search(r'uint64_t v0 = p0 while \(\(\(p2--\) > 0\)\) \(v0 = \(\(v0 \+ \(\*\(p1\+\+\)\)\) & 4294967295\)\) return \(uint32_t\)v0', t) is not None
-    ctx.check(ok, 'R-SHAPE', 'checksum32/sum-of-bytes', cs.loc(), 'CHECKSUM32 is the running sum of all `count` bytes modulo 2^32, continued from the previous value', 'checksum32 body: %s' % t[:200])
 
 
 def check_ctrapezoid_tables(ctx, db):
